@@ -172,10 +172,10 @@ impl<'a> Gen<'a> {
     fn wrap_for_checker(&mut self, ccx: &Cx, ret: &Ty, b: Tm) -> Tm {
         if self.preinstantiated(ret) { return b; }
         if self.cfg.avoid_instance_order_bug {
-            self.feat("new_clause_let_wrapped_for_checker");
+            self.feat("let_wrapped_for_checker_instance_order");
             let v = self.binder(ccx, ret, false, BK::Let, &[]);
             Tm::Let(v.clone(), ret.clone(), bx(b), bx(Tm::Var(v)))
-        } else { self.feat("new_clause_result_type_maybe_uninstantiated"); b }
+        } else { self.feat("expected_type_maybe_uninstantiated"); b }
     }
 
     fn gen_corec_body(&mut self, cx: &Cx, idx: usize, size: usize) -> Tm {
